@@ -205,7 +205,7 @@ from pyvc.session import Reader, Writer  # noqa: E402
 from pyvc.values import Builtin  # noqa: E402
 
 
-def mk_stream(u, n_throttles, direction=None):
+def mk_stream(u, n_throttles, direction=None, timeouts=False):
     it = u.it
     mod = it.modules[COMMON]
     st_cls = mod.attrs["StreamThrottle"]
@@ -220,6 +220,9 @@ def mk_stream(u, n_throttles, direction=None):
                 u.assume(J(it, st.fields[d_]))
         throttles[f"level{i}"] = st
     stream.fields.update(reader=Reader("r"), writer=Writer("w"), throttles=throttles, read_timeout=None, write_timeout=None)
+    if timeouts:
+        stream.fields["read_timeout"] = LazyOpt(it, "real", "read_timeout", lambda v: v.t > 0)
+        stream.fields["write_timeout"] = LazyOpt(it, "real", "write_timeout", lambda v: v.t > 0)
     return stream, throttles
 
 
@@ -287,7 +290,7 @@ def make_rw_setup(method):
     def setup(u):
         it = u.it
         n = 1
-        stream, throttles = mk_stream(u, n, "write" if method == "write" else "read")
+        stream, throttles = mk_stream(u, n, "write" if method == "write" else "read", timeouts=True)
         # Throttle.append is used through a summary that records the call
         f = it.getattr_(stream, method)
         if method == "write":
@@ -333,8 +336,20 @@ ca = contract(COMMON, "Throttle.append", props=[], name="Throttle.append#summary
 ca.self_check = False
 ca.apply_hook = lambda S: S.it.ctx.event("th.append", S.vars["self"], S.vars["data"], S.vars["start"])
 
+def rw_timer_covers_only_the_socket_io(S):
+    """C16: the speed-limit sleep is not part of the timed region — a throttled peer is not dropped for idleness"""
+    ev = S.it.ctx.events
+    idx_wait = [i for i, e in enumerate(ev) if e[0] == "wait_for"]
+    idx_sleep = [i for i, e in enumerate(ev) if e[0] == "sleep"]
+    if not idx_wait:
+        return True
+    return all(i < idx_wait[0] for i in idx_sleep)
+
+
 for _m in ("read", "write", "readline"):
-    c = contract(COMMON, f"ThrottleStreamIO.{_m}", props=["C15", "C01"])
+    c = contract(COMMON, f"ThrottleStreamIO.{_m}", props=["C15", "C01", "C16"])
+    c.ensures(rw_timer_covers_only_the_socket_io, "throttle-sleep-is-outside-the-io-timeout", props=["C16"])
+    c.raises_("TimeoutError", rw_timer_covers_only_the_socket_io, "throttle-sleep-is-outside-the-io-timeout", props=["C16"])
     c.setup = make_rw_setup(_m)
     c.opts = {"feas_timeout_ms": 100}
     c.uses = [(COMMON, "Throttle.append#summary")]
